@@ -172,6 +172,8 @@ def run(chk):
     for (kind, fname, key), (msg, line, vs) in sorted(found.items(), key=lambda x: str(x)):
         rule = 'C14-R2' if kind == 'instr-size' else 'C14-R1'
         chk.bad(rule, fname, '%s%s' % (kind, ':' + key if key else ''), msg + ' [targets 3.%s]' % ', 3.'.join(str(x) for x in sorted(vs)), CODEGEN, line)
+    # ---- R4 operand index spaces
+    index_space_rule(chk, by_norm, roots, ref)
     # ---- R3 who-may-write
     n3 = 0
     for f in d['fns']:
@@ -199,3 +201,139 @@ def run(chk):
     return ('Abstract interpretation of every PyCodeGenerator method, specialised per target version (3.7-3.11), over the domain (code-length parity, bytes since the last opcode) '
             'with method summaries to a fixpoint; the 3.11 sizes come from CPython\'s own _inline_cache_entries table; plus a who-may-write rule. '
             'That stacksize bounds the real operand depth, jump target values and the line table are not decided.'), {}
+
+
+TABLES = ('consts', 'names', 'varnames', 'cellvars', 'freevars')
+
+
+def expected_space(name, v, ref):
+    ver = ref['3.%d' % v]
+    om = ver['opmap']
+    if name in ('LOAD_CLOSURE',):
+        return {'varnames'} if v >= 11 else {'cellvars', 'freevars'}
+    if name in ('MAKE_CELL',):
+        return {'varnames', 'cellvars'}
+    if name in ('LOAD_DEREF', 'STORE_DEREF', 'DELETE_DEREF', 'LOAD_CLASSDEREF'):
+        return {'cellvars', 'freevars'} if v <= 10 else None     # 3.11: index into localsplus, several spaces are legitimate
+    if name in om:
+        b = om[name]
+        if b in ver['haslocal']:
+            return {'varnames'}
+        if b in ver['hasname'] and name != 'LOAD_GLOBAL':
+            return {'names'}
+        if b in ver['hasconst']:
+            return {'consts'}
+    return None
+
+
+def table_in(e):
+    s = T.show(e)
+    hit = [t for t in TABLES if ('.' + t + '.') in s or s.endswith('.' + t) or ('.' + t + ')') in s]
+    return set(hit)
+
+
+def space_of(e, fn, spec, env, loop_binds, depth=0):
+    """set of tables the index expression e is a position in; None if unknown"""
+    if depth > 6:
+        return None
+    e = T.peel(e)
+    k = e.get('k')
+    if k == 'Local':
+        if e['n'] in loop_binds:
+            return loop_binds[e['n']]
+        if e['n'] in env:
+            return space_of(env[e['n']], fn, spec, {kk: vv for kk, vv in env.items() if kk != e['n']}, loop_binds, depth + 1)
+        return None
+    if k == 'MCall' and e['n'] in ('unwrap', 'expect', 'unwrap_or_else', 'unwrap_or'):
+        return space_of(e['r'], fn, spec, env, loop_binds, depth + 1)
+    if k == 'MCall' and e['n'] == 'position':
+        t = table_in(e['r'])
+        return t or None
+    if k == 'If':
+        c = spec.cond(e['c'])
+        out = set()
+        if c is not False:
+            r = space_of(e['t'], fn, spec, env, loop_binds, depth + 1)
+            if r is None:
+                return None
+            out |= r
+        if c is not True and 'e' in e:
+            r = space_of(e['e'], fn, spec, env, loop_binds, depth + 1)
+            if r is None:
+                return None
+            out |= r
+        return out or None
+    if k == 'Block' and 'e' in e:
+        return space_of(e['e'], fn, spec, env, loop_binds, depth + 1)
+    if k == 'Binary' and e['op'] == '+':
+        a = space_of(e['x'], fn, spec, env, loop_binds, depth + 1)
+        b = space_of(e['y'], fn, spec, env, loop_binds, depth + 1)
+        if a and b:
+            return a | b
+        return a or b
+    return None
+
+
+def index_space_rule(chk, by_norm, roots, ref):
+    chk.rule('C14-R4', 'the operand written after an index-taking opcode is a position in the table that opcode indexes under the target version: names for name opcodes, consts for '
+                       'LOAD_CONST, varnames for fast locals (and for LOAD_CLOSURE under 3.11), cellvars/freevars for LOAD_CLOSURE / *_DEREF under <= 3.10 '
+                       '(origin traced to `.position(..)` over a table or to the index of `table.iter().enumerate()`; unknown origins are not judged)')
+    judged = 0
+    found = {}
+    for v in VERSIONS:
+        spec = VS.Spec(v)
+        reach = VS.reachable_methods(by_norm, roots, spec)
+        for fname in sorted(reach):
+            f = by_norm[fname]
+            env = VS.let_env(f)
+            # bindings of `for (i, x) in TABLE.iter().enumerate()`
+            loop_binds = {}
+            for n in T.walk(f['body']):
+                if n.get('k') == 'Match' and n.get('src') == 'ForLoopDesugar' and '.enumerate()' in T.show(n['x']):
+                    t = table_in(n['x'])
+                    if t:
+                        for m in T.walk(n):
+                            if m.get('k') == 'Match' and m is not n:
+                                for arm in m['arms']:
+                                    for q in T.walk(arm['pat']):
+                                        if q.get('k') == 'PTuple' and q['p'] and q['p'][0].get('k') == 'Bind':
+                                            loop_binds[q['p'][0]['n']] = t
+            for blk in VS.walk_feasible(f['body'], spec):
+                if blk.get('k') != 'Block':
+                    continue
+                ss = [T.unsemi(x) for x in blk.get('s', [])] + ([blk['e']] if 'e' in blk else [])
+                for i, st in enumerate(ss):
+                    if st.get('k') == 'If':
+                        # `if <version test> { ..; write_instr(A) } else { ..; write_instr(B) }  write_arg(x)`: the branch taken under v supplies the opcode
+                        c = spec.cond(st['c'])
+                        br = st['t'] if c is True else (st.get('e') if c is False else None)
+                        br = T.peel(br) if br else None
+                        if br and br.get('k') == 'Block':
+                            inner = [T.unsemi(x) for x in br.get('s', [])] + ([br['e']] if 'e' in br else [])
+                            if inner and inner[-1].get('k') == 'MCall' and inner[-1]['n'] == 'write_instr':
+                                st = inner[-1]
+                    if not (st.get('k') == 'MCall' and st['n'] == 'write_instr' and st['a']):
+                        continue
+                    vals, comp = VS.const_values(st['a'][0], spec, env)
+                    names = {x.split('::')[-1] for kk, x in vals if kk == 'variant'}
+                    if not names or not comp or len(names) != 1:
+                        continue
+                    op = next(iter(names))
+                    want = expected_space(op, v, ref)
+                    if want is None:
+                        continue
+                    for nxt in ss[i + 1:i + 3]:
+                        if nxt.get('k') == 'MCall' and nxt['n'] == 'write_arg' and nxt['a']:
+                            got = space_of(nxt['a'][0], f, spec, env, loop_binds)
+                            if got is None:
+                                break
+                            judged += 1
+                            if got <= want or (got & want and op in ('LOAD_DEREF', 'STORE_DEREF')):
+                                chk.ok('C14-R4', (v, fname, op), sample='%s @3.%d: %s operand from %s' % (fname, v, op, sorted(got)) if judged % 7 == 0 else None)
+                            else:
+                                found.setdefault((fname, op, tuple(sorted(got))), (set(), nxt['l'], want))[0].add(v)
+                            break
+    for (fname, op, got), (vs, line, want) in sorted(found.items()):
+        chk.bad('C14-R4', fname, '%s<-%s' % (op, '+'.join(got)), '%s writes an index into %s as the operand of %s, which indexes %s under 3.%s: the index can be out of range or name another variable'
+                % (fname, '/'.join(got), op, '/'.join(sorted(want)), ', 3.'.join(str(x) for x in sorted(vs))), CODEGEN, line)
+    chk.floor('operands with a traced index space (site x version)', judged, 5)
